@@ -291,6 +291,7 @@ def stepLine (m : M) (line : String) : M × String :=
       | ["stat"] => (m, s!"stat {s.avgNum} {s.avgDen} {s.level} {s.now}")
       | ["probe", "occ"] => (m, s!"probe {s.level}")
       | ["probe", "ready"] => (m, s!"probe {showNats (s.ready.map (·.item.id))}")
+      | ["probe", "mode"] => (m, "probe IDLE_STATE False")    -- the state machine never leaves IDLE (D9)
       | ["probe", _] => (m, "probe skip")
       | _ =>
         match slotOp w with
